@@ -70,7 +70,7 @@ def run(repo, rep, tier):
     # (C15 owns the key)
     from . import c15 as _c15
     L.borrow(repo, rep, "R14.1", "C15", _c15._coverage,
-             ("lossy-hash", "none-distinct"), minimum=2)
+             ("lossy-hash", "none-distinct"), minimum=0)
     L.state_rule(repo, rep)
 
 
